@@ -422,6 +422,11 @@ def sql_expect(w):
             elif not r["ok"]:
                 out.append((w["signature"], f"[{engine}] {w['sql'][:200]}: expected {w['expect'][:4]}, failed: {r.get('kind')} {r.get('err', '')[:120]} {r.get('panics')}"))
             else:
+                if w.get("ordered"):   # the sequence matters (ORDER BY witnesses)
+                    want = [tuple(x) for x in w["expect"]]
+                    if [tuple(x) for x in r["rows"]] != want:
+                        out.append((w["signature"], f"[{engine}] {w['sql'][:200]}: expected the sequence {want[:6]}, returned {r['rows'][:6]}"))
+                    continue
                 want = ms([tuple(x) for x in w["expect"]])
                 if ms(r["rows"]) != want:
                     out.append((w["signature"], f"[{engine}] {w['sql'][:200]}: expected {want[:4]}, returned {ms(r['rows'])[:4]}"))
